@@ -821,8 +821,11 @@ void nested_schedule_node_impl(const void *context, const GraphView &graph,
   // parent may already be processing a later cycle. A cross-boundary
   // notification (notably a REF rebind that samples an older target)
   // must run in the parent's current cycle, never schedule either
-  // graph back at the child's stale clock.
-  when = std::max(when, parent.graph().evaluation_time());
+  // graph back at the child's stale clock. The parent may itself be an
+  // idle nested graph with a stale clock (nesting depth >= 2), so the
+  // clamp is taken from the root graph, whose clock is the engine's
+  // current cycle.
+  when = std::max(when, parent.graph().root().evaluation_time());
   schedule_node_impl<NestedGraphRuntimeStorage>(context, graph, node_index,
                                                 when);
 
